@@ -10,6 +10,7 @@
 from __future__ import annotations
 
 import ast
+from dataclasses import dataclass
 
 from core.guards import atom, atoms_of, f_not, implies
 from core.loader import AnalysisError, FuncInfo, Repo, ancestors, calls_in, header, norm, own_nodes, parent
@@ -62,94 +63,332 @@ def run_r1(repo: Repo, res: Result) -> None:
     res.floor("C11.R1", 6, n)
 
 
+# --------------------------------------------------------------------------------------------------------------- C11.R2
+
+
+def _allow_r2(caller: FuncInfo, callee: FuncInfo) -> bool:
+    # the graph searches called for their side effects only (sub modules of a match) are not part of the conversion
+    return callee.module.name != SEARCHES
+
+
+def flatten(conds: list) -> list[tuple[ast.AST, bool]]:
+    """Conjunction of conditions as a list of literals: `a and b` / `not (a or b)` / `not x` / `bool(x)` are taken apart."""
+    out: list[tuple[ast.AST, bool]] = []
+    work = list(conds)
+    while work:
+        e, pol = work.pop(0)
+        if isinstance(e, ast.UnaryOp) and isinstance(e.op, ast.Not):
+            work.insert(0, (e.operand, not pol))
+        elif isinstance(e, ast.BoolOp) and ((isinstance(e.op, ast.And) and pol) or (isinstance(e.op, ast.Or) and not pol)):
+            work = [(v, pol) for v in e.values] + work
+        elif isinstance(e, ast.Call) and isinstance(e.func, ast.Name) and e.func.id == "bool" and len(e.args) == 1:
+            work.insert(0, (e.args[0], pol))
+        elif isinstance(e, ast.Compare) and len(e.ops) == 1 and isinstance(e.ops[0], (ast.IsNot, ast.NotIn, ast.NotEq)):
+            op = {ast.IsNot: ast.Is, ast.NotIn: ast.In, ast.NotEq: ast.Eq}[type(e.ops[0])]()
+            ne = ast.Compare(left=e.left, ops=[op], comparators=e.comparators)
+            out.append((ne, not pol))
+        elif isinstance(e, ast.Constant) and bool(e.value) is pol:
+            continue
+        else:
+            out.append((e, pol))
+    return out
+
+
+@dataclass
+class RegexTest:
+    kind: str  # match | fullmatch | search | ...
+    pattern: ast.AST | None
+    subject: ast.AST | None
+    flags: bool
+    call: ast.AST
+
+
+def regex_test(fn: Fn, e: ast.AST) -> RegexTest | None:
+    """`re.match(p, s)`, `re.compile(p).match(s)` (and the fullmatch / search variants) inside the expression `e`."""
+    for c in ast.walk(e):
+        if not isinstance(c, ast.Call):
+            continue
+        name = fn.lib_name(c.func) if isinstance(c.func, (ast.Name, ast.Attribute)) else ""
+        if name in ("re.match", "re.fullmatch", "re.search"):
+            pat = c.args[0] if c.args else next((k.value for k in c.keywords if k.arg == "pattern"), None)
+            sub = c.args[1] if len(c.args) > 1 else next((k.value for k in c.keywords if k.arg == "string"), None)
+            flags = len(c.args) > 2 or any(k.arg == "flags" for k in c.keywords)
+            if isinstance(pat, ast.Call) and fn.lib_name(pat.func) == "re.compile":
+                flags = flags or len(pat.args) > 1 or bool(pat.keywords)
+                pat = pat.args[0] if pat.args else None
+            return RegexTest(name.split(".")[1], pat, sub, flags, c)
+        if isinstance(c.func, ast.Attribute) and c.func.attr in ("match", "fullmatch", "search") and isinstance(c.func.value, ast.Call) and fn.lib_name(c.func.value.func) == "re.compile":
+            comp = c.func.value
+            flags = len(comp.args) > 1 or bool(comp.keywords) or len(c.args) > 1 or bool(c.keywords)
+            return RegexTest(c.func.attr, comp.args[0] if comp.args else None, c.args[0] if c.args else None, flags, c)
+    return None
+
+
+def _success_polarity(lit: ast.AST, call: ast.AST) -> bool | None:
+    """Polarity of the literal `lit` under which the match object `call` exists: `m` -> True, `m is None` -> False."""
+    if lit is call:
+        return True
+    if isinstance(lit, ast.Compare) and len(lit.ops) == 1 and lit.left is call and isinstance(lit.ops[0], (ast.Is, ast.Eq)) and isinstance(lit.comparators[0], ast.Constant) and lit.comparators[0].value is None:
+        return False
+    return None
+
+
+def _is_regex_flag(lit: ast.AST, var: str) -> bool:
+    if isinstance(lit, ast.Attribute) and lit.attr == "identifier_is_regex" and isinstance(lit.value, ast.Name) and lit.value.id == var:
+        return True
+    if isinstance(lit, ast.Call) and isinstance(lit.func, ast.Name) and lit.func.id == "isinstance" and len(lit.args) == 2 and isinstance(lit.args[0], ast.Name) and lit.args[0].id == var and "ModuleNameRegexFilter" in norm(lit.args[1]):
+        return True
+    return False
+
+
+def _is_identifier_of(e: ast.AST | None, var: str) -> bool:
+    return isinstance(e, ast.Attribute) and e.attr in ("identifier", "name") and isinstance(e.value, ast.Name) and e.value.id == var
+
+
+@dataclass
+class Matched:
+    ok: bool
+    why: str = ""
+    subject: str = ""
+    pattern: str = ""
+
+
+def matched_pair(fn: Fn, c, modules_param: str, arch_param: str, membership_of: str | None = None) -> Matched:
+    """Is the contribution made exactly once for every pair (regex filter f of `modules`, module m of `arch.modules`) with
+    re.match(f.identifier, m)?  `membership_of`: a literal `f.identifier in <that name>` is tolerated (remove idiom)."""
+    subj = [b for b in c.binders if b.root and isinstance(b.source, ast.Attribute) and b.source.attr == "modules" and dotted(b.source.value) == arch_param and len(b.names) == 1]
+    pats = [b for b in c.binders if b.root and dotted(b.source) == modules_param and len(b.names) == 1]
+    if len(c.binders) != 2 or len(subj) != 1 or len(pats) != 1:
+        rng = ", ".join(f"{norm(b.target)} in {show(b.source, 50)}" for b in c.binders) or "nothing"
+        return Matched(False, f"it ranges over ({rng}) instead of every (module of `{arch_param}.modules`, filter of `{modules_param}`) pair")
+    sv, pv = subj[0].names[0], pats[0].names[0]
+    lits = flatten(c.conds)
+    flag = test = False
+    for lit, pol in lits:
+        if _is_regex_flag(lit, pv):
+            if not pol:
+                return Matched(False, "it is made for filters that are *not* regex filters")
+            flag = True
+            continue
+        rt = regex_test(fn, lit)
+        if rt is not None:
+            succ = _success_polarity(lit, rt.call)
+            if succ is None:
+                return Matched(False, f"the use of the match result in `{show(lit)}` is not recognised")
+            if succ != pol:
+                return Matched(False, f"it is made when the pattern test `{show(rt.call)}` *fails*")
+            if rt.kind != "match" or rt.flags:
+                return Matched(False, f"the pattern test uses re.{rt.kind}{' with flags' if rt.flags else ''} instead of re.match(pattern, name)")
+            if not _is_identifier_of(rt.pattern, pv) or not (isinstance(rt.subject, ast.Name) and rt.subject.id == sv):
+                return Matched(False, f"the pattern test is `{show(rt.call)}`, not re.match(<regex filter>.identifier, <module name>)")
+            test = True
+            continue
+        if membership_of is not None and pol and isinstance(lit, ast.Compare) and isinstance(lit.ops[0], ast.In) and _is_identifier_of(lit.left, pv) and dotted(lit.comparators[0]) == membership_of:
+            continue
+        return Matched(False, f"it additionally depends on `{'' if pol else 'not '}{show(lit)}`")
+    if not test:
+        return Matched(False, "it does not depend on the pattern test re.match(pattern, name)")
+    if not flag:
+        return Matched(False, "it is also made for filters that are not regex filters (their names are used as patterns)")
+    return Matched(True, "", sv, pv)
+
+
+def _tuple_parts(fn: Fn, e: ast.AST) -> list[ast.AST] | None:
+    if isinstance(e, ast.Tuple):
+        return list(e.elts)
+    if isinstance(e, ast.Name):
+        defs = fn.reaching(e.id, e)
+        if len(defs) == 1 and defs[0].kind == "assign" and isinstance(defs[0].value, ast.Tuple):
+            return list(defs[0].value.elts)
+    return None
+
+
 def run_r2(repo: Repo, res: Result) -> None:
+    T = types_of(repo)
     conv = repo.cls(CONVERTER, "ModuleNameConverter")
     f = conv.methods.get("convert")
     if f is None:
         raise AnalysisError("ModuleNameConverter.convert not found")
-    arch = f.param_names[2]
-    loops = [l for l in own_nodes(f.node) if isinstance(l, ast.For) and norm(l.iter) == f"{arch}.modules"]
-    ok = len(loops) == 1 and not conds(f, loops[0]) and not any(isinstance(x, (ast.Break, ast.Return)) for x in ast.walk(loops[0]))
-    res.add("C11.R2", f"{f.relpath}::{f.qualname}::all modules scanned", ok, "every module of the architecture is tested against every pattern" if ok else "the scan over `arch.modules` is conditional or can be left early: a regex no longer stands for all modules it matches", where(f, f.node), kind="structural")
-    if not loops:
+    view = inline_view(repo, f, T, allow=_allow_r2)
+    fn = Fn(repo, view)
+    co = Collections(fn)
+    off = 0 if f.is_staticmethod else 1
+    modules_p, arch_p = view.param_names[off], view.param_names[off + 1]
+    base = f"{f.relpath}::{f.qualname}::"
+    rets = [s for s in own_nodes(view.node) if isinstance(s, ast.Return) and s.value is not None]
+    parts = _tuple_parts(fn, rets[0].value) if len(rets) == 1 else None
+    if parts is None or len(parts) != 2:
+        res.undecide("C11.R2", base + "result", "expected a single `return <filters>, <mapping>`", where(view, rets[0] if rets else view.node))
         return
-    outer = loops[0]
-    mvar = dotted(outer.target)
-    match_calls = [c for c in ast.walk(outer) if isinstance(c, ast.Call) and isinstance(c.func, ast.Attribute) and "match" in c.func.attr]
-    if len(match_calls) != 1:
-        raise AnalysisError(f"{f.fq}: pattern test inside the module scan not recognised")
-    mc = match_calls[0]
-    inner = [l for l in loops_around(mc, f.node) if isinstance(l, ast.For) and l is not outer]
-    if len(inner) != 1:
-        raise AnalysisError(f"{f.fq}: loop over the patterns not recognised")
-    pvar = dotted(inner[0].target)
-    ok = [dotted(a) for a in mc.args] == [pvar, mvar] and not any(isinstance(x, (ast.Break, ast.Continue)) for x in ast.walk(outer))
-    res.add("C11.R2", repo.key(f, stmt_of(mc)) + " [pattern x module]", ok, "test is (pattern, module name) for every pair" if ok else f"the pattern test is `{norm(mc)}` or the pair loop can skip pairs", where(f, mc), kind="structural")
-    # the patterns iterated are the identifiers of all regex filters
-    psrc = dotted(inner[0].iter)
-    assigns = [s for s in own_nodes(f.node) if isinstance(s, (ast.Assign, ast.AugAssign)) and any(dotted(t) == psrc for t in (s.targets if isinstance(s, ast.Assign) else [s.target]))]
-    ok = len(assigns) == 1 and "identifier" in norm(assigns[0].value) and not any(isinstance(g, ast.comprehension) and g.ifs for g in ast.walk(assigns[0].value))
-    res.add("C11.R2", f"{f.relpath}::{f.qualname}::patterns = all regex filters", ok, "every regex filter takes part in the scan" if ok else f"`{psrc}` is (re)assigned {len(assigns)} times / filtered: some regex filters are resolved outside the pattern test", where(f, inner[0]), kind="structural")
-    # accumulators: only changed under the match test
-    H = truth(f, mc)
-    rets = [s for s in own_nodes(f.node) if isinstance(s, ast.Return) and s.value is not None]
-    if len(rets) != 1 or not isinstance(rets[0].value, ast.Tuple):
-        raise AnalysisError(f"{f.fq}: expected a single `return converted, mapping`")
-    ret_names = {n.id for n in ast.walk(rets[0].value) if isinstance(n, ast.Name)}
-    acc = set()
-    for s in own_nodes(f.node):
-        if isinstance(s, ast.Assign) and isinstance(s.targets[0], ast.Name) and s.targets[0].id in ret_names:
-            acc |= {n.id for n in ast.walk(s.value) if isinstance(n, ast.Name)} | {s.targets[0].id}
-    raise_stmts = [s for s in own_nodes(f.node) if isinstance(s, ast.Raise)]
-    never = None
-    for r in raise_stmts:
-        cs_ = conds(f, r)
-        if len(cs_) == 1 and cs_[0][1] and isinstance(cs_[0][0], ast.Name):
-            never = cs_[0][0].id
-    n = 0
-    for c in calls_in(f.node):
-        if isinstance(c.func, ast.Attribute) and c.func.attr in ("add", "append", "update", "extend", "remove", "discard", "pop", "clear"):
-            base = c.func.value
-            while isinstance(base, ast.Subscript):
-                base = base.value
-            b = dotted(base)
-            if b in acc or b == never:
-                if b not in ("converted_module_filters", never) and b not in ret_names and not any(b == x for x in acc):
+    ret = rets[0]
+    d = co.normalise(co.describe(parts[0]))
+    if d.unknown:
+        res.undecide("C11.R2", base + "result", "the list of converted filters is not recognised: " + "; ".join(d.unknown[:2]), where(view, ret))
+        return
+    # ---- every element of the result is either the name filter of a matched (regex, module) pair or an unchanged non-regex filter
+    k1, k2, bad = [], [], []
+    for c in d.contribs:
+        cls_ = _ctor_class(fn, c.elt) if c.elt is not None else ""
+        if cls_.endswith(".ModuleNameFilter"):
+            k1.append(c)
+        elif isinstance(c.elt, ast.Name) and len(c.binders) == 1 and c.binders[0].root and dotted(c.binders[0].source) == modules_p and c.elt.id in c.binders[0].names:
+            k2.append(c)
+        else:
+            bad.append(f"the result also holds `{c.text()[:110]}`")
+    for r_ in d.removals:
+        bad.append(f"elements are taken out of the result again (`{show(r_.node, 70)}`)")
+    n1 = 0
+    scan_loops: list[ast.AST] = []
+    for c in k1:
+        m = matched_pair(fn, c, modules_p, arch_p)
+        key = repo.key(view, stmt_of(c.node)) + " [pattern x module]" if c.node is not None and parent(c.node) is not None else base + "name filter of a match"
+        ok = m.ok
+        why = m.why
+        if ok:
+            arg = _ctor_arg(fn, c.elt, "name")
+            if not (isinstance(arg, ast.Name) and arg.id == m.subject):
+                ok, why = False, f"the filter built for a match is `{show(c.elt)}`, not the name filter of the matched module `{m.subject}`"
+            for b in c.binders:
+                if isinstance(b.loop, (ast.For, ast.AsyncFor)) and b.loop not in scan_loops:
+                    scan_loops.append(b.loop)
+        n1 += 1
+        res.add("C11.R2", key, ok, "a name filter is added exactly for the pairs (regex filter, module) with re.match(pattern, module name)" if ok else f"`{show(c.node, 70)}`: {why}: a regex no longer stands for exactly the modules re.match(pattern, name) selects", where(view, c.node if c.node is not None else ret), kind="dominance")
+    early = [x for lp in scan_loops for x in ast.walk(lp) if isinstance(x, (ast.Break, ast.Return))]
+    res.add("C11.R2", base + "all modules scanned", bool(k1) and not early, "every module of the architecture is tested against every pattern" if k1 and not early else ("no name filter is ever added for a matching module" if not k1 else f"the scan can be left early (`{header(early[0])}`): a regex no longer stands for all modules it matches"), where(view, early[0] if early else view.node), kind="structural")
+    ok2 = bool(k2)
+    why2 = "the non-regex filters are not part of the result" if not k2 else ""
+    for c in k2:
+        lits = flatten(c.conds)
+        v = c.binders[0].names[0]
+        if not (len(lits) >= 1 and all(_is_regex_flag(l, v) and not pol for l, pol in lits)):
+            extra = [f"{'' if pol else 'not '}{show(l)}" for l, pol in lits if not (_is_regex_flag(l, v) and not pol)]
+            ok2, why2 = False, (f"filters are passed on under `{' and '.join(extra)}`" if extra else "filters are passed on whether or not they are regex filters")
+    if bad:
+        ok2, why2 = False, bad[0]
+    res.add("C11.R2", base + "result = converted + others", ok2, "result is the converted filters plus the non-regex filters unchanged" if ok2 else f"{why2}: the conversion result is not `name filters of all matches + other filters unchanged`", where(view, ret), kind="structural")
+    # ---- a regex that matches nothing raises before anything is returned
+    raises = [s for s in own_nodes(view.node) if isinstance(s, ast.Raise) and s.exc is not None and _raised_class(fn, s.exc).endswith(".ImpossibleMatch")]
+    ok, why = _no_match_raises(repo, view, fn, co, raises, ret, scan_loops, modules_p, arch_p)
+    if ok is None:
+        res.undecide("C11.R2", base + "no-match raises", why, where(view, raises[0] if raises else view.node))
+    else:
+        res.add("C11.R2", base + "no-match raises", ok, "a regex that matched nothing raises ImpossibleMatch before any result is returned" if ok else f"{why}: a regex matching nothing does not (only) raise ImpossibleMatch before the conversion result is returned", where(view, raises[0] if raises else view.node), kind="dominance")
+
+
+def _raised_class(fn: Fn, exc: ast.AST) -> str:
+    if isinstance(exc, ast.Call):
+        return _ctor_class(fn, exc)
+    t = fn.type_of(exc)
+    for m in (t[1] if t[0] == "union" else [t]):
+        if m[0] == "type":
+            return m[1]
+    return ""
+
+
+def _pattern_image(c, modules_p: str, extra_ok=None) -> tuple[bool, list]:
+    """Contribution `{f.identifier | f in modules, f is regex}`; returns (is it, remaining literals)."""
+    if len(c.binders) != 1 or not c.binders[0].root or dotted(c.binders[0].source) != modules_p or len(c.binders[0].names) != 1:
+        return False, []
+    v = c.binders[0].names[0]
+    if not _is_identifier_of(c.elt, v):
+        return False, []
+    rest, flag = [], False
+    for lit, pol in flatten(c.conds):
+        if _is_regex_flag(lit, v) and pol:
+            flag = True
+        else:
+            rest.append((lit, pol))
+    return flag, rest
+
+
+def _no_match_raises(repo: Repo, view: FuncInfo, fn: Fn, co: Collections, raises: list, ret: ast.AST, scan_loops: list, modules_p: str, arch_p: str):
+    if not raises:
+        return False, "ImpossibleMatch is never raised"
+    if len(raises) > 1:
+        return None, "several `raise ImpossibleMatch` statements"
+    r = raises[0]
+    if any(lp in list(ancestors(r)) for lp in scan_loops):
+        return None, "ImpossibleMatch is raised inside the scan"
+    lits = flatten(fn.conds_all(r))
+    if len(lits) != 1 or not lits[0][1]:
+        return False, f"ImpossibleMatch is raised under `{' and '.join(('' if p else 'not ') + show(l) for l, p in lits) or 'no condition'}`, not exactly when the set of unmatched patterns is non-empty"
+    u = lits[0][0]
+    if isinstance(u, ast.Compare) and len(u.ops) == 1 and isinstance(u.ops[0], ast.Gt) and isinstance(u.left, ast.Call) and isinstance(u.left.func, ast.Name) and u.left.func.id == "len" and isinstance(u.comparators[0], ast.Constant) and u.comparators[0].value == 0:
+        u = u.left.args[0]
+    if not isinstance(u, ast.Name):
+        return None, f"the condition `{show(u)}` of the raise is not the truthiness of a collection"
+    cfg = cfg_of(view)
+    guard_if = _if_of(r)
+    if not cfg.dominates(guard_if, ret):
+        return False, "the result can be returned without the unmatched-pattern test having been made"
+    for lp in scan_loops:
+        if not cfg.dominates(lp, guard_if):
+            return False, "the unmatched-pattern test can be made before the scan"
+    du = co.normalise(co.describe(u))
+    if du.unknown:
+        return None, f"`{u.id}` is not recognised: {du.unknown[0]}"
+    if not du.contribs:
+        return False, f"`{u.id}` never holds a pattern"
+    # form A: all patterns, each taken out when (and only when) it matched
+    images = [_pattern_image(c, modules_p) for c in du.contribs]
+    if all(ok for ok, _ in images):
+        rests = [rest for _, rest in images]
+        if all(not rest for rest in rests):
+            rem = du.removals
+            if not rem:
+                return False, f"`{u.id}` holds every pattern and none is ever taken out"
+            for x in rem:
+                if x.how == "difference":
+                    got = _matched_keys(fn, co, x.value, modules_p, arch_p)
+                    if got is not True:
+                        return got
                     continue
-                n += 1
-                g = guard_formula(f, c)
-                ok = implies(g, H)
-                res.add("C11.R2", repo.key(f, stmt_of(c)), ok, "changed only for a (pattern, module) pair that matches" if ok else f"`{norm(c, 80)}` is executed without the pattern test having matched: a regex resolves to modules by another criterion than `re.match(pattern, name)`", where(f, c), kind="dominance")
-    res.floor("C11.R2.acc", 3, n)
-    # ModuleNameFilter built from the matched module
-    ctor = [c for c in ast.walk(outer) if isinstance(c, ast.Call) and dotted(c.func) == "ModuleNameFilter"]
-    ok = len(ctor) == 1 and ((ctor[0].keywords and dotted(ctor[0].keywords[0].value) == mvar) or (ctor[0].args and dotted(ctor[0].args[0]) == mvar))
-    res.add("C11.R2", f"{f.relpath}::{f.qualname}::name filter of the matched module", ok, "a matching module m contributes ModuleNameFilter(name=m)" if ok else "the filter built for a match is not the name filter of the matched module", where(f, ctor[0] if ctor else f.node), kind="structural")
-    # never-matched raises before returning
-    ok = never is not None and len(raise_stmts) == 1 and cfg_of(f).dominates(_if_of(raise_stmts[0]), rets[0]) and "ImpossibleMatch" in norm(raise_stmts[0])
-    res.add("C11.R2", f"{f.relpath}::{f.qualname}::no-match raises", ok, "a regex that matched nothing raises ImpossibleMatch before any result is returned" if ok else "a regex matching nothing does not raise before the conversion result is returned", where(f, f.node), kind="dominance")
-    if never is not None:
-        init = [s for s in own_nodes(f.node) if isinstance(s, ast.Assign) and dotted(s.targets[0]) == never]
-        ok = len(init) == 1 and "identifier" in norm(init[0].value) and not any(isinstance(g, ast.comprehension) and g.ifs for g in ast.walk(init[0].value))
-        res.add("C11.R2", f"{f.relpath}::{f.qualname}::never-matched starts with all patterns", ok, "the unmatched set starts with every regex filter" if ok else "the unmatched set does not start with all regex filters", where(f, f.node), kind="structural")
-    # result = converted + unchanged others
-    txt = norm(rets[0].value.elts[0]) if isinstance(rets[0].value.elts[0], ast.Name) else ""
-    src = [s for s in own_nodes(f.node) if isinstance(s, ast.Assign) and dotted(s.targets[0]) == txt]
-    ok = len(src) == 1 and isinstance(src[0].value, ast.BinOp) and "other_modules" in norm(src[0].value) and "converted_module_filters" in norm(src[0].value)
-    res.add("C11.R2", f"{f.relpath}::{f.qualname}::result = converted + others", ok, "result is the converted filters plus the non-regex filters unchanged" if ok else "the conversion result is not `converted + other filters`", where(f, rets[0]), kind="structural")
-    # the test itself
-    nm = conv.methods.get("_name_matches_pattern")
-    if nm is None:
-        raise AnalysisError("ModuleNameConverter._name_matches_pattern not found")
-    res_calls = [repo.resolve_name(nm.module, c.func) for c in calls_in(nm.node)]
-    ok = "re.match" in res_calls and "re.fullmatch" not in res_calls and "re.search" not in res_calls
-    flags = [c for c in calls_in(nm.node) if repo.resolve_name(nm.module, c.func) in ("re.match", "re.compile") and (len(c.args) > 2 or (repo.resolve_name(nm.module, c.func) == "re.compile" and len(c.args) > 1) or c.keywords)]
-    res.add("C11.R2", f"{nm.relpath}::{nm.qualname}::re.match", ok and not flags, "a module matches when re.match(pattern, name) succeeds (start-anchored, no flags)" if ok and not flags else f"the pattern test uses {[r for r in res_calls if r and r.startswith('re.')]}{' with flags' if flags else ''} instead of re.match(pattern, name)", where(nm, nm.node), kind="structural")
+                if x.how not in ("remove", "discard"):
+                    return None, f"`{show(x.node, 60)}` on the unmatched set is not recognised"
+                m = matched_pair(fn, x, modules_p, arch_p, membership_of=u.id)
+                if not m.ok:
+                    return False, f"a pattern is taken out of the unmatched set `{u.id}` by `{show(x.node, 60)}`, but {m.why}"
+                if not _is_identifier_of(x.elt, m.pattern):
+                    return False, f"`{show(x.node, 60)}` takes `{show(x.elt)}` out of the unmatched set, not the pattern that matched"
+            return True, ""
+        # form B: patterns without an entry in a container keyed by matched patterns
+        if len(du.contribs) == 1 and len(rests[0]) == 1 and not du.removals:
+            lit, pol = rests[0][0]
+            v = du.contribs[0].binders[0].names[0]
+            if not pol and isinstance(lit, ast.Compare) and isinstance(lit.ops[0], ast.In) and _is_identifier_of(lit.left, v):
+                got = _matched_keys(fn, co, lit.comparators[0], modules_p, arch_p)
+                return (True, "") if got is True else got
+        return None, f"the unmatched set `{u.id}` is `{du.contribs[0].text()[:100]}` - not recognised"
+    return None, f"the unmatched set `{u.id}` is `{du.contribs[0].text()[:100]}` - not recognised"
+
+
+def _matched_keys(fn: Fn, co: Collections, m: ast.AST, modules_p: str, arch_p: str):
+    """True if the container `m` gets an entry / element `f.identifier` exactly for the matched pairs."""
+    ctx, orig = fn.ctx_of(m)
+    while isinstance(orig, ast.Call) and ((isinstance(orig.func, ast.Name) and orig.func.id in ("set", "list", "frozenset", "tuple") and len(orig.args) == 1) or (isinstance(orig.func, ast.Attribute) and orig.func.attr == "keys")):
+        orig = orig.args[0] if isinstance(orig.func, ast.Name) else orig.func.value
+    if ctx is not fn.fi or parent(orig) is None:
+        return None, f"`{show(m)}` is not recognised"
+    dm = co.normalise(co.describe(orig))
+    if dm.unknown or dm.removals:
+        return None, f"`{show(m)}` is not recognised"
+    if not dm.contribs:
+        return False, f"`{show(m)}` never gets an entry"
+    for c in dm.contribs:
+        mm = matched_pair(fn, c, modules_p, arch_p)
+        if not mm.ok:
+            return False, f"`{show(c.node, 60)}` records a pattern as matched, but {mm.why}"
+        if not _is_identifier_of(c.elt, mm.pattern):
+            return False, f"`{show(c.node, 60)}` records `{show(c.elt)}`, not the pattern that matched"
+    return True
 
 
 def _if_of(stmt: ast.AST) -> ast.AST:
     p = parent(stmt)
-    return p if isinstance(p, ast.If) else stmt
+    while isinstance(p, ast.If):
+        stmt = p
+        p = parent(p)
+    return stmt
 
 
 # --------------------------------------------------------------------------------------------------------------- C11.R3
